@@ -108,6 +108,9 @@ fn run_churn(spec: &Spec) -> (Duration, bool, String, bool) {
         let cfg = ListenerCfg { proxy: spec.proxy.then_some((true, true)), limiter: spec.limiter.then_some((3600, 2)), timeout: Duration::from_secs(20), auth_secret: None, ..Default::default() };
         let running = start_listener(&cfg, adapters).await;
         let mut ok = true;
+        // "...-next-to-a-silent-one": one client connected first and has stayed silent ever since
+        let silent = if spec.stall.ends_with("-next-to-a-silent-one") { McClient::connect(running.addr, Some("127.0.0.4".parse().unwrap())).await.ok() } else { None };
+        let kind = spec.stall.trim_end_matches("-next-to-a-silent-one").to_string();
         for i in 0..spec.churn {
             if spec.stall == "churn-reset-in-backlog" {
                 // connect, abort (RST) and go on without ever yielding to the listener in between: the connection is
@@ -129,7 +132,7 @@ fn run_churn(spec: &Spec) -> (Duration, bool, String, bool) {
                 ok = false;
                 break;
             };
-            match spec.stall.as_str() {
+            match kind.as_str() {
                 // no PROXY header where one is required: closed unserved
                 "churn-no-proxy-header" => {
                     let _ = c.send_raw(b"GET / HTTP/1.1\r\nHost: example\r\n\r\n").await;
@@ -191,6 +194,7 @@ fn run_churn(spec: &Spec) -> (Duration, bool, String, bool) {
         if !served && running.done.is_finished() {
             detail.push_str(" (listen() has returned: the listener stopped accepting although nobody asked it to)");
         }
+        drop(silent);
         running.stop.cancel();
         let _ = tokio::time::timeout(Duration::from_millis(500), running.done).await;
         (elapsed, served, detail, ok)
@@ -328,7 +332,7 @@ pub fn run(cli: Cli) -> ! {
         }
     }
     // churn: 1500 (thorough: 5000) short-lived connections one after the other that end on an early exit
-    for (proxy, limiter, kind) in [(true, false, "churn-no-proxy-header"), (false, true, "churn-rate-limited"), (true, true, "churn-rate-limited"), (false, false, "churn-connect-close"), (true, false, "churn-connect-close"), (false, false, "churn-status"), (true, false, "churn-status"), (false, false, "churn-reset-in-backlog"), (true, true, "churn-reset-in-backlog")] {
+    for (proxy, limiter, kind) in [(true, false, "churn-no-proxy-header"), (false, true, "churn-rate-limited"), (true, true, "churn-rate-limited"), (false, false, "churn-connect-close"), (true, false, "churn-connect-close"), (false, false, "churn-status"), (true, false, "churn-status"), (false, false, "churn-reset-in-backlog"), (true, true, "churn-reset-in-backlog"), (false, false, "churn-connect-close-next-to-a-silent-one"), (false, true, "churn-status-next-to-a-silent-one")] {
         specs.push(Spec { proxy, limiter, stall: kind.into(), hostile: 0, login: false, churn: if thorough { 5000 } else { 1500 } });
     }
     specs.push(Spec { proxy: true, limiter: true, stall: "churn-many-sources".into(), hostile: 0, login: false, churn: if thorough { 70_000 } else { 17_000 } });
